@@ -2,8 +2,11 @@ package c12
 
 import (
 	"bytes"
+	"context"
 	"crypto/ed25519"
 	"fmt"
+	"os"
+	"path/filepath"
 	"strings"
 
 	"github.com/libp2p/go-libp2p/core/crypto"
@@ -11,6 +14,8 @@ import (
 	"verifharness/hx"
 
 	"github.com/evstack/ev-node/block"
+	"github.com/evstack/ev-node/pkg/cache"
+	storepkg "github.com/evstack/ev-node/pkg/store"
 	"github.com/evstack/ev-node/types"
 )
 
@@ -31,6 +36,35 @@ func GoldenValues() (h types.Header, d types.Data, sh types.SignedHeader, sd typ
 	sh = types.SignedHeader{Header: h, Signature: bytes.Repeat([]byte{0x55}, 64), Signer: types.Signer{PubKey: pub, Address: addr}}
 	sd = types.SignedData{Data: d, Signature: bytes.Repeat([]byte{0x66}, 64), Signer: types.Signer{PubKey: pub, Address: addr}}
 	return
+}
+
+// GoldenFullHeader: a header with every field set (the first golden header leaves LastCommitHash and
+// LastResultsHash empty), maximal integers in the version
+func GoldenFullHeader() types.Header {
+	h, _, _, _ := GoldenValues()
+	h.Version = types.Version{Block: 1<<64 - 1, App: 300}
+	h.LastCommitHash = bytes.Repeat([]byte{0x5c}, 32)
+	h.LastResultsHash = bytes.Repeat([]byte{0x99}, 32)
+	h.BaseHeader.ChainID = "golden-chain-é"
+	return h
+}
+
+// goldenCacheFile: items_by_height.gob as the REAL pkg/cache SaveToDisk writes it for a cache holding one item
+// (height 7). gob output is deterministic for a one-entry map; the type ids inside it are counters of the process
+// (encoding/gob numbers types in the order it first meets them), so the fact generator always saves the header
+// cache first and the data cache second, in a fresh process, like Manager.SaveCache does.
+func goldenCacheFile[T any](item *T) ([]byte, error) {
+	dir, err := os.MkdirTemp(os.Getenv("VERIF_WORK"), "c12facts-")
+	if err != nil {
+		return nil, err
+	}
+	defer os.RemoveAll(dir)
+	cc := cache.NewCache[T]()
+	cc.SetItem(7, item)
+	if err := cc.SaveToDisk(dir); err != nil {
+		return nil, err
+	}
+	return os.ReadFile(filepath.Join(dir, "items_by_height.gob"))
 }
 
 func init() {
@@ -63,6 +97,33 @@ func init() {
 		def("zeroHeaderBytes", must(h0.MarshalBinary()))
 		def("zeroHeaderHash", h0.Hash())
 		def("batchDataBytes", block.VerifBatchDataToBytes([][]byte{[]byte("ab"), {}, []byte("cde")}))
+		// ---- added with State / cache files / full header (everything above is unchanged)
+		hf := GoldenFullHeader()
+		def("fullHeaderBytes", must(hf.MarshalBinary()))
+		def("fullHeaderHash", hf.Hash())
+		for i, name := range []string{"stateBytes", "statePreEpochBytes", "stateZeroBytes"} {
+			s := GoldenStates()[i]
+			sb, err := marshalState(&s)
+			if err != nil {
+				return "", err
+			}
+			// the store writes exactly these bytes
+			kv := hx.NewLogDS(nil)
+			if err := storepkg.New(kv).UpdateState(context.Background(), s); err != nil || !bytes.Equal(kv.Image()[stateKey()], sb) {
+				return "", fmt.Errorf("store.UpdateState does not write proto.Marshal(state.ToProto()) for %s", name)
+			}
+			def(name, sb)
+		}
+		cf, err := goldenCacheFile(&sh)
+		if err != nil {
+			return "", err
+		}
+		def("cacheHeaderItemsFile", cf)
+		cf, err = goldenCacheFile(&d)
+		if err != nil {
+			return "", err
+		}
+		def("cacheDataItemsFile", cf)
 		return b.String(), nil
 	})
 }
